@@ -161,10 +161,18 @@ def run(ctx):
                 call(ctx, 'pretty_print_notebook_diff', lambda x, y: pp.pretty_print_notebook_diff('a', 'b', x, y, cfg), [na, d], check_alias=False)
             cfg = pp.PrettyPrintConfig(out=io.StringIO(), use_color=False)
             call(ctx, 'pretty_print_notebook', lambda x: pp.pretty_print_notebook(x, cfg), [na], check_alias=False)
-    for t in range(n):
-        b, l, r, kinds = gen_nb.any_triple(rng)
+    scen = sorted(set(gen_nb.SCENARIOS))
+    n_sc = len(scen) * (2 if ctx.tier == 'quick' else 30)
+    for t in range(n + n_sc):
+        # random triples, then every conflict scenario in rotation under the default (inline) and the mergetool strategy
+        if t < n:
+            b, l, r, kinds = gen_nb.any_triple(rng)
+            args = rng.choice([mergelib.Args('inline'), mergelib.Args('mergetool'), rng.choice(mergelib.all_combos())])
+        else:
+            b, l, r, kinds = gen_nb.triple_scenario(rng, first=scen[(t - n) % len(scen)])
+            args = mergelib.Args('inline') if ((t - n) // len(scen)) % 3 != 2 else mergelib.Args('mergetool')
+            ctx.count('scenario:' + kinds[0])
         nb_, nl, nr = (nbformat.from_dict(copy.deepcopy(x)) for x in (b, l, r))
-        args = rng.choice([mergelib.Args('inline'), mergelib.Args('mergetool'), rng.choice(mergelib.all_combos())])
         ds, err = call(ctx, 'decide_notebook_merge', lambda x, y, z: decide_notebook_merge(x, y, z, args), [nb_, nl, nr], check_alias=False)
         call(ctx, 'merge_notebooks', lambda x, y, z: merge_notebooks(x, y, z, args), [nb_, nl, nr])
         if ds is not None:
